@@ -333,6 +333,7 @@ def run(ctx: RuleContext, p: Program) -> None:
     ctx.try_rule(round4.rule_id_cmp, p, 'ID-CMP')
     ctx.try_rule(rule_postlex_block, p, 'POSTLEX-BLOCK')
     ctx.try_rule(rule_flag_writers, p, 'FLAG-WRITERS')
+    ctx.try_rule(rule_claim_phases, p, 'CLAIM-PHASES')
     from . import presence
     ctx.try_rule(presence.rule_presence_truth, p, 'PRESENCE-TRUTH')
     from . import claimorder
@@ -482,3 +483,31 @@ def rule_flag_writers(ctx: RuleContext, p: Program, rid: str) -> None:
                               note='claim / unclaim path, parser gap, or the token itself', nontrivial=False)
     if n < 5:
         raise AnalysisError(f'FLAG-WRITERS: only {n} writers of the claimed flag found (6 confirmed by hand)')
+
+
+# ====================================================================== CLAIM-PHASES (added in round 7)
+def rule_claim_phases(ctx: RuleContext, p: Program, rid: str) -> None:
+    ctx.rule(rid, 'the documented order puts "trailing comment of the model directly above" before "standalone entry": in a model with two repeated '
+                  'fields that keep standalone comments (one after the other in the text), the field that comes later must not collect standalone '
+                  'comments before the items of the earlier field have had their turn to claim a trailing comment.  auto_claim_comments() of a '
+                  'repeated field does both in one go (items first, then the standalone comments around them, outwards up to the model\'s '
+                  'limits), so calling it for the later field first lets an empty later field take the comment that follows the last item of '
+                  'the earlier one')
+    n = 0
+    for c in p.tree_model_classes():
+        fn = c.attrs.get('auto_claim_comments')
+        if not isinstance(fn, FuncInfo):
+            continue
+        calls = [x for x in walk_no_nested(fn.node) if isinstance(x, ast.Call) and isinstance(x.func, ast.Attribute) and x.func.attr == 'auto_claim_comments'
+                 and isinstance(x.func.value, ast.Attribute) and self_attr(x.func.value) and self_attr(x.func.value).endswith('_with_comments')]
+        if len(calls) < 2:
+            continue
+        n += 1
+        order = [self_attr(x.func.value) for x in sorted(calls, key=lambda x: (x.lineno, x.col_offset))]
+        ctx.fail(rid, f'{c.module.name.split(".", 1)[1]}:{c.name}.auto_claim_comments', 'standalone claims of a later field before trailing claims of an earlier one',
+                 f'{c.name}.auto_claim_comments runs {" then ".join(order)}: the first of them (the field that comes later in the text) collects '
+                 f'standalone comments outwards -- including, when it has no items, the comment right after the last item of the other field -- '
+                 f'before that item can claim it as its trailing comment.  E.g. a transaction with a meta item, an indented comment and no '
+                 f'postings: the comment becomes an entry of raw_postings_with_comments, the documented order makes it the meta item\'s trailing '
+                 f'comment', fn.where)
+    ctx.ok(rid, 'generated and hand-written models', f'{n} model(s) with two repeated fields that keep standalone comments', nontrivial=False)
